@@ -131,7 +131,10 @@ convert_inum(void *dest, void *val, int val_id, int_t offset)
   } else { /* PyNumber */
 #if PY_MAJOR_VERSION >= 3
     if (PyLong_Check((PyObject *)val)) {
-      *(int_t *)dest = PyLong_AS_LONG((PyObject *)val); return 0;
+      int_t v = PyLong_AS_LONG((PyObject *)val);
+      /* -1 with an exception set: the integer does not fit */
+      if (v == -1 && PyErr_Occurred()) return -1;
+      *(int_t *)dest = v; return 0;
     }
 #else
     if (PyInt_Check((PyObject *)val)) {
@@ -157,7 +160,9 @@ convert_dnum(void *dest, void *val, int val_id, int_t offset)
 #else
     if (PyInt_Check((PyObject *)val) || PyFloat_Check((PyObject *)val)) {
 #endif
-      *(double *)dest = PyFloat_AsDouble((PyObject *)val);
+      double v = PyFloat_AsDouble((PyObject *)val);
+      if (v == -1.0 && PyErr_Occurred()) return -1;
+      *(double *)dest = v;
       return 0;
     }
     else PY_ERR_INT(PyExc_TypeError,"cannot cast argument as double");
